@@ -167,7 +167,7 @@ theorem org_pseudo : ∀ r ∈ Gen.instructions, r.mnemonic = "ORG" → r.isPseu
 
 /-! ### what `fix_addresses` does to the operand field -/
 
-theorem addrCombine_numeric {op : Char} {a add : Nat} {v : Value} (h : addrCombine op a add = .ok v) :
+theorem addrCombine_numeric {op : Char} {a : Nat} {add : Int} {v : Value} (h : addrCombine op a add = .ok v) :
     v.isNumeric = true := by
   unfold addrCombine at h
   dsimp only at h
